@@ -161,7 +161,7 @@ Theorem checker_mismatch_fails_call :
   (forall (hs : res Session) (cl : bool) (w : list Z) (fp : list Z -> list Z) (s : Session), hs = Ok s ->
      (forall c, (if cl then s_server_chain s else s_client_chain s) = Some c -> fp c <> w) ->
      wrapper hs cl (Some w) fp = Err (OtherExn X_AuthenticationError)) /\
-  (forall e cl w fp, wrapper (Err e) cl w fp = Err e).
+  (forall (e : exn) (cl : bool) (w : option (list Z)) (fp : list Z -> list Z), exists e', wrapper (Err e) cl w fp = Err e').
 Proof. exact (conj wrapper_accepts (conj wrapper_mismatch wrapper_failed_handshake)). Qed.
 
 (* F12: the server's own `scheme` (read at tlsconnection.py 3305) influences the check of a
